@@ -6,10 +6,12 @@ Grid parts (exhaustive over stated finite spaces, dense reference = own numpy co
   F    from_full: all basis states, all two-term superpositions inside a charge sector, generic vectors, segments
   BF   from_Bflat: non-canonical charge-symmetric tensors with non-uniform bond dimensions (finite and infinite)
   S    from_singlets: all oriented perfect / imperfect matchings
+  SI   from_singlets with bc='infinite': all matchings with pairs inside or reaching into the next unit cell
   COV  from_product_mps_covering: all coverings by 1-, 2- (and one 3-) site MPS with every index map
   PROJ project_onto_charge_sector: all reachable sectors
 Model-checking part (checks/c07_hist.py):
-  H    BFS over histories of convert_form / canonical_form* / set_B / set_SL / copy / gauge changes.
+  H    BFS (to the fixed point of the abstract state graph, and unmerged to depth 2-3) over histories of
+       convert_form / canonical_form* / set_B / set_SL / copy / gauge changes, from finite, segment and infinite seeds.
 """
 import itertools
 import logging
@@ -23,7 +25,6 @@ from checks import c07_univ as U
 from checks.c07_hist import Bad
 
 UNIT_TIMEOUT = 1500.0
-TOL = 1e-9
 FORMS = ['B', 'A', 'C', 'G', None]
 
 
